@@ -20,6 +20,31 @@ type gline struct {
 	labels []string
 	text   string // instruction text, "" for the entry directive placeholder
 	entry  bool
+	meta   string // line-level metadata ("iomode:sync", "tag:x,iomode:async"): written on a label line of this
+	// instruction (`lb: iomode:sync`) or on a label-less line in front of it (`: iomode:sync`)
+}
+
+func pickOr(r *common.Rng, xs []string, dflt string) string {
+	if r == nil {
+		return dflt
+	}
+	return pick(r, xs)
+}
+
+// lineMeta: sometimes a line-level iomode (which overrides the section's and the global one), sometimes with an inert key
+func lineMeta(r *common.Rng, num, den int) (meta string, mode string) {
+	if !r.Chance(num, den) {
+		return "", ""
+	}
+	mode = pick(r, []string{"async", "sync"})
+	meta = "iomode:" + mode
+	switch r.Intn(6) {
+	case 0:
+		meta = "tag:" + pick(r, []string{"x", "hot", "7"}) + "," + meta
+	case 1:
+		meta += ",tag:" + pick(r, []string{"x", "hot", "7"})
+	}
+	return
 }
 
 type gsection struct {
@@ -108,6 +133,7 @@ func genSection(r *common.Rng, name string, rsize int, effMode string, secMode s
 			f = "j"
 		}
 		var t string
+		meta := ""
 		switch f {
 		case "rset":
 			t = "rset " + reg() + ", " + genLiteral(r, rsize)
@@ -129,7 +155,11 @@ func genSection(r *common.Rng, name string, rsize int, effMode string, secMode s
 			t = "jz " + reg() + ", " + pick(r, names)
 		case "in":
 			p := "i" + strconv.Itoa(r.Intn(s.nIn))
+			lm, _ := lineMeta(r, 1, 3)
 			switch {
+			case lm != "":
+				t = "mov " + reg() + ", " + p // the line's own mode decides, whatever the section says (or does not say)
+				meta = lm
 			case effMode != "" && r.Chance(3, 4):
 				t = "mov " + reg() + ", " + p
 			case r.Bool():
@@ -139,7 +169,11 @@ func genSection(r *common.Rng, name string, rsize int, effMode string, secMode s
 			}
 		case "out":
 			p := "o" + strconv.Itoa(r.Intn(s.nOut))
+			lm, _ := lineMeta(r, 1, 3)
 			switch {
+			case lm != "":
+				t = "mov " + p + ", " + reg()
+				meta = lm
 			case effMode != "" && r.Chance(3, 4):
 				t = "mov " + p + ", " + reg()
 			case r.Bool():
@@ -148,7 +182,10 @@ func genSection(r *common.Rng, name string, rsize int, effMode string, secMode s
 				t = "r2owa " + reg() + ", " + p
 			}
 		}
-		s.lines = append(s.lines, gline{labels: labAt[i], text: t})
+		if meta == "" && f != "in" && f != "out" {
+			meta, _ = lineMeta(r, 1, 12) // metadata on a line it means nothing for: must not leak to another line
+		}
+		s.lines = append(s.lines, gline{labels: labAt[i], text: t, meta: meta})
 	}
 	// the entry directive: first line (usual), or anywhere else
 	pos := 0
@@ -191,8 +228,23 @@ func (s gsection) render(b *strings.Builder, r *common.Rng) {
 	}
 	b.WriteString("\n")
 	for _, l := range s.lines {
-		for _, lb := range l.labels {
-			b.WriteString(lb + ":\n")
+		onLabel := -1
+		if l.meta != "" && len(l.labels) > 0 && r != nil && r.Bool() {
+			onLabel = r.Intn(len(l.labels))
+		}
+		for i, lb := range l.labels {
+			if i == onLabel {
+				b.WriteString(lb + ": " + l.meta + "\n")
+			} else {
+				b.WriteString(lb + ":\n")
+			}
+		}
+		if l.meta != "" && onLabel < 0 {
+			sp := " "
+			if r != nil {
+				sp = pick(r, []string{" ", " ", "  ", "\t"})
+			}
+			b.WriteString(":" + sp + strings.ReplaceAll(l.meta, ",", pickOr(r, []string{",", ", "}, ",")) + "\n")
 		}
 		ind := "\t"
 		if r != nil && r.Chance(1, 4) {
@@ -223,6 +275,9 @@ func genRelaySection(r *common.Rng, name string, rsize int, secMode string, sour
 	first := true
 	add := func(t string) {
 		g := gline{text: t}
+		if strings.HasPrefix(t, "mov ") && (strings.Contains(t, ", i") || strings.HasPrefix(t, "mov o")) {
+			g.meta, _ = lineMeta(r, 1, 5)
+		}
 		if first {
 			g.labels = []string{s.entryLabel}
 			first = false
@@ -883,17 +938,68 @@ func GenDataCase(r *common.Rng) Case {
 	}
 	var b strings.Builder
 	b.WriteString("%meta bmdef global registersize:" + strconv.Itoa(rsize) + "\n")
-	code := func() {
-		b.WriteString("%section code1 .romtext iomode:async\n\tentry _start\n_start:\n")
-		for n := 2 + r.Intn(3); n > 0; n-- {
-			name := fmt.Sprintf("v%d", r.Intn(nv))
-			b.WriteString("\tmov r0, rom:" + name + "\n")
-			for k := r.Intn(minCells(name)); k > 0; k-- {
-				b.WriteString("\tinc r0\n")
-			}
-			b.WriteString("\tmov r1, rom:[r0]\n\tmov o0, r1\n")
+	// the program: a prologue, then a loop whose head is NOT address 0 (a jump target that reads differently on fewer bits)
+	var cb strings.Builder
+	ncode := 0
+	ins := func(t string) {
+		cb.WriteString("\t" + t + "\n")
+		ncode++
+	}
+	cb.WriteString("%section code1 .romtext iomode:async\n\tentry _start\n_start:\n")
+	loopLabel := "_start"
+	if r.Chance(3, 4) {
+		for n := 1 + r.Intn(3); n > 0; n-- {
+			ins(pick(r, []string{"clr r1", "rset r1, 7", "inc r1", "nop"}))
 		}
-		b.WriteString("\tj _start\n%endsection\n")
+		loopLabel = "loop"
+		cb.WriteString("loop:\n")
+	}
+	for n := 2 + r.Intn(3); n > 0; n-- {
+		name := fmt.Sprintf("v%d", r.Intn(nv))
+		ins("mov r0, rom:" + name)
+		for k := r.Intn(minCells(name)); k > 0; k-- {
+			ins("inc r0")
+		}
+		ins("mov r1, rom:[r0]")
+		ins("mov o0, r1")
+	}
+	ins("j " + loopLabel)
+	cb.WriteString("%endsection\n")
+	code := func() { b.WriteString(cb.String()) }
+	// code + data straddling a power of two: 2^k-1, 2^k, 2^k+1 cells in all (the ROM address width is computed from the sum)
+	if r.Chance(2, 3) {
+		for si := range secs {
+			have := ncode
+			for _, v := range secs[si] {
+				have += cells(v)
+			}
+			k := 2
+			for (1<<uint(k))-1 <= have {
+				k++
+			}
+			pad := (1 << uint(k)) - 1 + r.Intn(3) - have
+			if (1<<uint(k))+1 > 250 {
+				continue // keep every address inside an 8-bit register
+			}
+			v := dvar{name: "pad", rep: 1}
+			if pad > 6 {
+				v.rep = pad / 2
+				for i := 0; i < 2; i++ {
+					x := r.Intn(256)
+					v.elems = append(v.elems, dataElem{text: fmt.Sprintf("0x%02x", x), bytes: []int{x}})
+				}
+				secs[si] = append(secs[si], v)
+				pad -= 2 * v.rep
+				v = dvar{name: "pad2", rep: 1}
+			}
+			for i := 0; i < pad; i++ {
+				x := r.Intn(256)
+				v.elems = append(v.elems, dataElem{text: fmt.Sprintf("0x%02x", x), bytes: []int{x}})
+			}
+			if len(v.elems) > 0 {
+				secs[si] = append(secs[si], v)
+			}
+		}
 	}
 	codeFirst := r.Bool()
 	if codeFirst {
